@@ -6,9 +6,8 @@ method of netutil, hostsfile, urlutil, stringutil, timeutil with its input kinds
 hazard sites (index, slice, single-value type assertion, explicit panic, non-range loop,
 division) reachable from it through golibs code.  This file
   * names, for every input-consuming entry that has a hazard, the kernel-checked totality
-    theorem about its model (`covered`), or lists it as `pending` (model exists and is tied
-    to the code by the correspondence check, totality theorem not yet proved);
-  * proves `inventory_covered_partial` over the regenerated table, so that a new exported
+    theorem about its model (`covered`);
+  * proves `inventory_covered` over the regenerated table, so that a new exported
     function, or a wrapper that acquires an index expression, breaks an obligation;
   * restates the totality theorems as corollaries (so their axioms are audited here).
 -/
@@ -48,11 +47,11 @@ def covered : List String := [
   "urlutil.URL.UnmarshalJSON",
   "netutil.IPFromReversedAddr", "netutil.IPToReversedAddr",
   "netutil.ExtractReversedAddr", "netutil.PrefixFromReversedAddr",
-  "hostsfile.Record.UnmarshalText", "hostsfile.Parse"]
-
-/-- modelled and tied by the correspondence check; totality theorem not yet in this file -/
-def pending : List String := [
+  "hostsfile.Record.UnmarshalText", "hostsfile.Parse",
   "netutil.IPNetToPrefix", "netutil.IPNetToPrefixNoMapped"]
+
+/-- modelled and tied by the correspondence check but without a totality theorem here: none -/
+def pending : List String := []
 
 def entryOK (e : Entry) : Bool :=
   !consumesInput e || e.hazards.isEmpty || covered.contains e.name || pending.contains e.name
@@ -60,17 +59,17 @@ def entryOK (e : Entry) : Bool :=
 theorem inventory_check : inventory.all entryOK = true := by decide +kernel
 
 /-- Every exported, input-consuming function of the five packages either has no hazard site
-at all (nothing in it or its golibs callees can panic or loop), or is in `covered`, or is in
-`pending`.  Partial: `pending` is not empty yet. -/
-theorem inventory_covered_partial (e : Entry) (he : e ∈ inventory) (hc : consumesInput e = true) :
-    e.hazards = [] ∨ e.name ∈ covered ∨ e.name ∈ pending := by
+at all (nothing in it or its golibs callees can panic or loop), or is in `covered`, i.e. has a
+totality theorem below. -/
+theorem inventory_covered (e : Entry) (he : e ∈ inventory) (hc : consumesInput e = true) :
+    e.hazards = [] ∨ e.name ∈ covered := by
   have := List.all_eq_true.1 inventory_check e he
   simp only [entryOK, hc, Bool.not_true, Bool.false_or, Bool.or_eq_true, List.isEmpty_iff,
     List.contains_iff_mem] at this
   rcases this with (h | h) | h
   · exact Or.inl h
-  · exact Or.inr (Or.inl h)
-  · exact Or.inr (Or.inr h)
+  · exact Or.inr h
+  · exact absurd h (by simp [pending])
 
 /-- the inventory really contains input-consuming, hazard-bearing entries -/
 theorem inventory_nontrivial :
@@ -141,6 +140,19 @@ theorem hostsfile_never_panics (toASCII : Bytes → Option Bytes) (r : C07.Recor
     (∃ res, C08.parse toASCII isHandleSet srcName false stream = .ok res) :=
   ⟨C07.unmarshal_total toASCII r line,
    let ⟨_, _, h⟩ := C08.parse_exact toASCII isHandleSet srcName stream; ⟨_, h⟩⟩
+
+/-- `IPNetToPrefix` (for the two documented families) and `IPNetToPrefixNoMapped` never panic -/
+theorem ipnet_conversions_never_panic (n : Option C12.IPNet) (fam : Nat)
+    (hf : fam = C12.famV4 ∨ fam = C12.famV6) :
+    (∃ r, C12.ipNetToPrefix n fam = .ok r) ∧ (∃ r, C12.ipNetToPrefixNoMapped n = .ok r) := by
+  refine ⟨C12.ipNetToPrefix_total n fam hf, ?_⟩
+  cases n with
+  | none => exact ⟨_, rfl⟩
+  | some n =>
+    unfold C12.ipNetToPrefixNoMapped
+    cases h : C12.to4 (C12.orNil n.ip) with
+    | some ip4 => simp only [h]; exact C12.ipNetToPrefix_total _ _ (Or.inl rfl)
+    | none => simp only [h]; exact C12.ipNetToPrefix_total _ _ (Or.inr rfl)
 
 theorem stringutil_never_panics (fold : Nat → Nat) (s sub : Bytes) :
     (∃ b, C13.containsFold fold s sub = .ok b) ∧
